@@ -166,7 +166,13 @@ class CascadeMonitor:
             elif isinstance(ov.value, np.ndarray) and np.shares_memory(ov.value, obj):
                 ctx.violation("the output value shares memory with the array returned by the defuzzifier", case, "a copy", "a view")
         raw_rows = rows(self.raw)
-        last = rows(st["value"])[-1]
+        # (a variable that holds an empty batch holds no value: the most recent value is then the one recorded before it)
+        held = rows(st["value"])
+        last = held[-1] if held else float(np.asarray(st["previous"], dtype=float).ravel()[-1])
+        if not held:
+            ctx.hit("piece:defuzzified while holding an empty batch")
+        if not raw_rows:
+            ctx.hit("piece:empty batch defuzzified")
         exp = cascade(raw_rows, last, lp, default, lr, lo, hi)
         got = rows(now_value)
         ctx.hit(f"event:defuzzified:{'batch' if len(raw_rows) > 1 else 'scalar'}")
@@ -244,7 +250,7 @@ FORMS = ["float64", "0d", "1d", "pyfloat"]
 
 
 def chunk_value(chunk, form):
-    if len(chunk) > 1 or form == "1d":
+    if len(chunk) != 1 or form == "1d":
         return np.array(chunk, dtype=float)
     if form == "float64":
         return np.float64(chunk[0])
@@ -371,7 +377,7 @@ def run(ctx):
                     d.queue = [RuntimeError("injected")]
                     hist.append("fail")
                 else:
-                    n = rnd.choice([1, 1, 2, 3, 5, 12])
+                    n = rnd.choice([1, 1, 2, 3, 5, 12, 0])
                     flo, fhi = (lo if math.isfinite(lo) else -3.0), (hi if math.isfinite(hi) else 3.0)
                     chunk = [rnd.choice([nan, nan, rnd.uniform(flo, fhi), flo - rnd.random(), fhi + rnd.random(), flo, fhi, math.inf, -math.inf]) for _ in range(n)]
                     if shape == "mixed magnitudes" and rnd.random() < 0.6:
@@ -437,6 +443,7 @@ def run(ctx):
         reach.report(ctx)
     ctx.exhaustive = True
     ctx.extra["exhaustive_space"] = f"4^n sequences (n<=3 fully, n<={L} with sampled forms/faults) x 2^(n-1) splits x 12 settings x 4 result forms x failure at each call x clear"
+    ctx.require("piece:defuzzified while holding an empty batch", "piece:empty batch defuzzified")
     ctx.require("range:mixed magnitudes", "event:observer between steps", *[f"environment:{e}" for e in ENVIRONMENTS])
     ctx.require("event:Engine.process observed", "event:processed with an empty fuzzy output", "event:variable edited between defuzzifications", "event:two variables given the same array as value", "workload:large batch")
     ctx.require("hook:OutputVariable.defuzzify", "hook:OutputVariable.clear", "event:defuzzified:batch", "event:defuzzified:scalar", "event:defuzzifier_raised", "event:disabled", "event:clear", "piece:clipped", "piece:kept", "range:left-open", "range:right-open", "range:unbounded", "default:infinite", "law:defuzzifier result left untouched")
